@@ -189,6 +189,55 @@ def replay(args):
                      pockets=any(a < b for a, b in zip(case["np"], case["np"][1:])) and any(a > b for a, b in zip(case["np"], case["np"][1:])))
 
 
+BULK_CP = 100000000      # 10^8: every other duty of the lattice problems is below 1e-6 of it
+
+
+def replay_bulk(args):
+    """C04 'largest duty on the lowest grade' next to a duty a million times larger: the case plus one cold stream of CP 10^8 that
+    sits ABOVE every intermediate level and every other stream (and below the top hot utility).  Its duty D can only come from the
+    top utility, the pocket-free curve below it is unchanged, so every other utility must carry exactly what it carried without
+    it -- judged with the tolerance of the ORIGINAL scale (an absolute tolerance that grows with the total would hide a level
+    whose duty is tiny against D: seeded change C04h)."""
+    case, ename = args
+    emb = EMBS[ename]
+    tmax = max([s_["hi"] + (s_["dtc"] if s_["k"] == "C" else -s_["dtc"]) for s_ in case["S"]] + [u["hi"] for j, u in enumerate(case["HU"]) if u["hi"] < max(v["hi"] for v in case["HU"])]
+               + [u["hi"] for u in case["CU"]] + [0])
+    top = max(range(len(case["HU"])), key=lambda j: case["HU"][j]["hi"])
+    lo = case["HU"][top]["lo"] - 90
+    if lo - 40 <= tmax:
+        return [], False
+    big = dict(k="C", lo=lo - 40, hi=lo, cp=BULK_CP, dtc=0)
+    D = emb.Q(BULK_CP * 40)
+    case2 = dict(case, S=list(case["S"]) + [big])
+    scale0 = max(1.0, emb.Q(case["totHot"] + case["totCold"]))
+    out = []
+    try:
+        z = build_zone(case2, emb)
+        _OP["di"](z)
+    except Exception as e:
+        return [("C14.di_raises", dict(exc=repr(e)[:300], emb=ename, variant="bulk"))], True
+    t = z.targets["Z/Direct Integration"]
+    hq = {u.name: float(u.heat_flow) for u in t.hot_utilities}
+    cq = {u.name: float(u.heat_flow) for u in t.cold_utilities}
+    hq = [hq[f"HU{j+1}"] for j in range(len(case["HU"]))]
+    cq = [cq[f"CU{j+1}"] for j in range(len(case["CU"]))]
+    exp_h = [emb.Q(float(q)) for q in case["optQ"]["hot"]]
+    exp_c = [emb.Q(float(q)) for q in case["optQ"]["cold"]]
+    if abs(sum(hq) - (emb.Q(case["Qh"]) + D)) > 1e-6 * (scale0 + D) or abs(sum(cq) - emb.Q(case["Qc"])) > 1e-6 * (scale0 + D):
+        out.append(("C03.sum_hot", dict(got=sum(hq), expected=emb.Q(case["Qh"]) + D, emb=ename, variant="bulk")))
+    def by_level(qs, us, skip=None):
+        tot = {}
+        for j, (q, u) in enumerate(zip(qs, us)):
+            if j != skip:
+                tot[(u["lo"], u["hi"])] = tot.get((u["lo"], u["hi"]), 0.0) + q
+        return [tot[k] for k in sorted(tot)]
+    got = by_level(hq, case["HU"], top) + by_level(cq, case["CU"])
+    exp = by_level(exp_h, case["HU"], top) + by_level(exp_c, case["CU"])
+    if any(abs(a - b) > 1e-6 * scale0 for a, b in zip(got, exp)) or abs(hq[top] - (exp_h[top] + D)) > 1e-6 * (scale0 + D):
+        out.append(("C04.lowest_grade_first", dict(got=hq + cq, expected=exp_h[:top] + [exp_h[top] + D] + exp_h[top + 1:] + exp_c, emb=ename, variant="bulk")))
+    return out, True
+
+
 def shape_case(shape):
     """A GCC shape (rows 100 units apart, top first) as the stream set that has exactly this grand composite curve (one stream per
     interval, contributions 0) plus a ladder with an intermediate level on each side."""
@@ -309,6 +358,8 @@ def check(prop, tier, run: Run, replay_case=None):
         _init()
         if replay_case["detail"].get("level") == "shape":
             out = replay_shape((replay_case["case"], replay_case["detail"]["emb"]))
+        elif replay_case["detail"].get("variant") == "bulk":
+            out, _ = replay_bulk((replay_case["case"], replay_case["detail"]["emb"]))
         else:
             out, _ = replay((replay_case["case"], replay_case["detail"]["emb"]))
         for clause, d in out:
@@ -349,6 +400,22 @@ def check(prop, tier, run: Run, replay_case=None):
                     run.drift.append(flags["drift"])
                 if flags.get("multi") or flags.get("pockets"):
                     nontriv.add(json.dumps([case["S"], case["ho"], case["co"]]))
+        if prop == "C04":
+            # the same isothermal cases next to a duty a million times larger (exact embeddings)
+            from ..common import sample as _sample
+            iso = [c for c in cases if c["isothermal"] and c["ho"] not in (5, 7) and c["co"] not in (5, 7)]
+            bj = [(c, (E1.name, E0.name)[i % 2]) for i, c in enumerate(_sample(iso, 6000 if tier == "quick" else 60000, 31))]
+            nb = 0
+            with Pool(16, initializer=_init) as pool:
+                for (case, ename), (out, ran) in zip(bj, pool.imap(replay_bulk, bj, chunksize=64)):
+                    if ran:
+                        nb += 1
+                        run.cov["evaluations"] += 1
+                        run.cov["traces_validated_against_impl"] += 1
+                    for clause, d in out:
+                        if clause.startswith(pre):
+                            run.violation(clause, case, d)
+            run.notes.setdefault("bulk_variant", {})[name] = nb
         run.cov["samples"] += [{"config": name, "streams": c["S"], "hot_ladder": c["HU"], "cold_ladder": c["CU"],
                                 "Qh": c["Qh"], "Qc": c["Qc"], "hot_duties": c["hotQ"], "cold_duties": c["coldQ"]}
                                for c in cases[len(cases) // 3:: max(1, len(cases) // 3)][:2]]
